@@ -6,6 +6,7 @@ import (
 	"fmt"
 	"sort"
 	"strings"
+	"time"
 
 	"github.com/cedar-policy/cedar-go/types"
 	"github.com/cedar-policy/cedar-go/verif/core"
@@ -403,8 +404,9 @@ func checkConfig(t *core.T, c []int) {
 
 func Check() *core.Check {
 	return &core.Check{
-		ID:    "C17",
-		Title: "Schema codecs round-trip and preserve the resolved schema",
+		ID:        "C17",
+		HangAfter: 120 * time.Second, // cases take at most seconds (max_case_s in the evidence); see core.Family.HangAfter
+		Title:     "Schema codecs round-trip and preserve the resolved schema",
 		Rule: "bounded deviation enumeration: a base schema using every construct, with 16 feature slots (names needing quotes for attributes and actions, annotations with / without value on namespaces, entities, attributes, actions and common types, empty / missing shapes, all appliesTo forms, optional attributes, 15 attribute types incl. nested records, sets, entity and extension references, common and built-in type references, enums with 0-3 values, action parents unqualified / qualified / cross-namespace / bare `Action::` naming the empty namespace from inside a namespace, placement at top level / in a namespace / in a nested namespace, tags, parent lists, common-type chains); every configuration with at most the stated number of slots deviating from the base; oracle: Resolve(parse(render(S))) equals Resolve(S) for text and JSON (canonical form: maps sorted, parent / appliesTo lists as sets, nil == empty), second rendering byte-identical, text->JSON and JSON->text commute with Resolve, resolution errors preserved; " +
 			"a configuration is non-trivial if the schema resolves",
 		Assumptions: []string{"Resolve itself is the reference for what a schema means"},
